@@ -54,6 +54,12 @@ def multi_encode(payload, max_size_per_chunk):
     return BCURMulti(text_b64=_b64(payload)).encode(max_size_per_chunk=max_size_per_chunk)
 
 
+def multi_encode_full(payload, max_size_per_chunk):
+    """(parts, the object's single bc32 encoding, its digest string)"""
+    o = BCURMulti(text_b64=_b64(payload))
+    return o.encode(max_size_per_chunk=max_size_per_chunk), o.encoded, o.enc_hash
+
+
 def multi_encoded(payload):
     o = BCURMulti(text_b64=_b64(payload))
     return o.encoded, o.enc_hash
